@@ -92,6 +92,7 @@ def run(prog, chk):
         "kerning is only registered under scripts the font is known to support: code points are classified by extensions & (knownScripts | DFLT), v2 registers subsets of knownScripts (R20.4)",
         "getScriptLanguageSystems files every declared language under the statement's own OT script tag and pairs each tag with the list stored under it (R20.5)",
         "the font's scripts are guessed from exported glyphs only: a script of skipped glyphs would be registered by the kern writer alone (R20.6, shared with C13)",
+        "a generated feature is inserted as its own top-level block, never into a user's block where it would inherit a script / language statement (R20.7, shared with C17)",
     ]
     chk.not_decided += ["which scripts a given font ends up with in the compiled ScriptList"]
     writers = default_writers(prog)
@@ -135,6 +136,8 @@ def run(prog, chk):
     chk.guard(r205, prog, chk)
     from .c13 import check_scripts_from_exported_glyphs
     chk.guard(check_scripts_from_exported_glyphs, prog, chk, "R20.6")
+    from .c17 import check_generated_blocks_top_level
+    chk.guard(check_generated_blocks_top_level, prog, chk, "R20.7")
 
 
 def feature_tags(prog, w: ClassInfo) -> Set[str]:
@@ -325,6 +328,8 @@ def r205(prog, chk):
 
 
 MUTANTS = [
+    M("generated statements spliced into the user's block at a mid-block marker (seeded C20g)", "ufo2ft/featureWriters/baseFeatureWriter.py", "BaseFeatureWriter._insert",
+      "block.statements = block.statements[:markerIndex]", "block.statements = block.statements[:markerIndex]\nblock.statements[markerIndex:markerIndex] = feature.statements", rule="R20.7"),
     M("scripts guessed from non-exported glyphs too (seeded C20f)", "ufo2ft/featureWriters/baseFeatureWriter.py", "BaseFeatureWriter.guessFontScripts",
       "glyph.name not in glyphSet or glyph.unicodes is None", "glyph.unicodes is None", rule="R20.6"),
     M("languages collected per Unicode script instead of per OT tag (seeded C20e)", "ufo2ft/featureWriters/ast.py", "getScriptLanguageSystems",
